@@ -13,6 +13,16 @@ using namespace vh;
 
 namespace {
 
+    std::vector<std::string> const c07_focus = {"condition_variable::wait", "condition_variable::notify_one", "condition_variable::notify_all", "condition_variable_any", "stop_state", "stop_callback", "execution_agent::do_yield", "set_thread_state", "default_agent"};
+    struct FocusInit
+    {
+        FocusInit()
+        {
+            for (auto& s : c07_focus) focus_patterns().push_back(s);
+        }
+    } focus_init;
+
+
     enum
     {
         OP_WAIT_LOOP = 1,         // while (gen < T) cv.wait(lk)
@@ -349,6 +359,7 @@ namespace {
         if (!ctx.program_from_replay) ctx.program = gen(ctx, nparties, HasStop);
         sim_config sc = draw_sim_config(ctx, 60000, FAULT_STALL | FAULT_CLOCKJUMP | FAULT_TRYFAIL | FAULT_SPURIOUS);
         begin_sim(ctx, sc);
+        focus_select(ctx, c07_focus, 3);
         g_dump_hook = +[]() -> std::string {
             std::string s = pk::dump() + sfmt(" | cv model: gen=%lld waits:", (long long) S.gen);
             for (auto& w : S.waits)
@@ -436,6 +447,7 @@ namespace {
         int64_t yields = ctx.params.set("c07.notify_after_yields", r.range(0, 6));
         sim_config sc = draw_sim_config(ctx, 40000, FAULT_STALL);
         begin_sim(ctx, sc);
+        focus_select(ctx, c07_focus, 3);
         g_dump_hook = pk::dump;
         pk::start(ctx);
         static pika::condition_variable_any cv;
